@@ -78,10 +78,11 @@ Spline<2, double> reparameterize_spline(
     //  s.t.                   y + 2 ds a         \leq y(i + 1)  [1]  (max velocity at s_{i+1})
     //        vel_min     \leq vel y              \leq vel_max   [2]  (spline velocity bound)
     //        acc_min     \leq acc * y + vel * a  \leq acc_max   [3]  (spline acceleration bound)
+    //                                              y \geq 0         [4]  (y is a squared velocity)
     //
     // and use acceleration a at i
 
-    std::array<std::array<double, 3>, 1 + 3 * Dof<G>> ineq;
+    std::array<std::array<double, 3>, 2 + 3 * Dof<G>> ineq;
 
     // constraint [1]
     ineq[0] = {1, 2 * ds, v2max(i + 1)};
@@ -102,6 +103,9 @@ Spline<2, double> reparameterize_spline(
       ineq[1 + Dof<G> + j]     = {acc(j), vel(j), acc_max(j)};
       ineq[1 + 2 * Dof<G> + j] = {-acc(j), -vel(j), -acc_min(j)};
     }
+
+    // constraint [4]: y is a squared velocity
+    ineq[1 + 3 * Dof<G>] = {-1, 0, 0};
 
     const auto [v2opt, aopt, status] = lp2d::solve(-1, 0, ineq);
 
